@@ -141,7 +141,7 @@ func runNative(pkgRel, pkgName, harnessName, replayPath string, watchdog int) (s
 	bin := filepath.Join(dir, "replay.test")
 	build := exec.Command("go", "test", "-c", "-vet=off", "-overlay", ovPath, "-o", bin, "./"+pkgRel)
 	build.Dir = repoDir
-	build.Env = append(os.Environ(), "GOFLAGS=-mod=mod", "GOPROXY=off")
+	build.Env = append(os.Environ(), "GOFLAGS=-mod=readonly", "GOPROXY=off")
 	if bo, err := build.CombinedOutput(); err != nil {
 		return "", string(bo), fmt.Errorf("native build failed: %v", err)
 	}
